@@ -5,7 +5,8 @@ From V Require Import base.Cal gen.ParseTables parse.Lex parse.Prim parse.Ymd pa
                       parse.ParseSpec parse.YearThm parse.RenderIso parse.RenderName parse.FracFacts
                       parse.RenderUtc parse.RenderRefuted parse.RenderFrac parse.RenderCommaMon parse.RenderCommaMonth
                       parse.RenderCompact parse.Render12HM parse.Render12HMS parse.RenderOff parse.RenderCtime
-                      parse.RenderRfc parse.RenderComma12 parse.RenderCommaDefs parse.RenderOffDefs parse.Render12Defs parse.RenderMisc parse.RenderFlags parse.RenderOff4 parse.Render12H.
+                      parse.RenderRfc parse.RenderComma12 parse.RenderCommaDefs parse.RenderOffDefs parse.Render12Defs parse.RenderMisc parse.RenderFlags parse.RenderOff4 parse.Render12H parse.RenderUtcDefs parse.RenderUtcB parse.RenderUtcC parse.RenderUtcD
+                      parse.RenderCompactUtc.
 Import ListNotations.
 Open Scope Z_scope.
 
@@ -214,6 +215,45 @@ Theorem C02_parse_render_12h_h : forall spaced d o df cy loc n0 n1 yf ig,
   = OutOk (expected_dt (TDT DIso JSpace (T12H spaced) ONone) d df) ZNaive 0 false [].
 Proof. exact parse_render_12h_h_lemma. Qed.
 Print Assumptions C02_parse_render_12h_h.
+
+(* UTC designators after further forms (UTC / GMT not local zone names):
+   YYYY/MM/DD{T, space}{HH:MM, HH:MM:SS} (12), MM/DD/YYYY ... (12, yearfirst False), YYYY-MM-DD{T, space}HH:MM (6),
+   YYYYMMDD{T, space}HHMM[SS] (12), each followed by Z / " UTC" / " GMT" *)
+Theorem C02_parse_render_slash_utc : forall f j tf ofm d o df cy loc n0 n1 yf ig,
+  In f [DSlashYMD] -> In j plain_joiners -> In tf plain_tforms -> In ofm [OZ; OUTC; OGMT] ->
+  valid_dt d = true -> valid_dt df = true ->
+  smem [85; 84; 67] loc = false -> smem [71; 77; 84] loc = false ->
+  parse (opts_df0 yf ig df cy loc n0 n1) (render (TDT f j tf ofm) d o)
+  = OutOk (expected_dt (TDT f j tf ofm) d df) (if ig then ZNaive else ZUTC) 0 false [].
+Proof. exact parse_render_slash_utc_lemma. Qed.
+Print Assumptions C02_parse_render_slash_utc.
+
+Theorem C02_parse_render_us_utc : forall f j tf ofm d o df cy loc n0 n1 ig,
+  In f [DUS] -> In j plain_joiners -> In tf plain_tforms -> In ofm [OZ; OUTC; OGMT] ->
+  valid_dt d = true -> valid_dt df = true ->
+  smem [85; 84; 67] loc = false -> smem [71; 77; 84] loc = false ->
+  parse (opts_df0 false ig df cy loc n0 n1) (render (TDT f j tf ofm) d o)
+  = OutOk (expected_dt (TDT f j tf ofm) d df) (if ig then ZNaive else ZUTC) 0 false [].
+Proof. exact parse_render_us_utc_lemma. Qed.
+Print Assumptions C02_parse_render_us_utc.
+
+Theorem C02_parse_render_iso_hm_utc : forall f j tf ofm d o df cy loc n0 n1 yf ig,
+  In f [DIso] -> In j plain_joiners -> In tf [THM] -> In ofm [OZ; OUTC; OGMT] ->
+  valid_dt d = true -> valid_dt df = true ->
+  smem [85; 84; 67] loc = false -> smem [71; 77; 84] loc = false ->
+  parse (opts_df0 yf ig df cy loc n0 n1) (render (TDT f j tf ofm) d o)
+  = OutOk (expected_dt (TDT f j tf ofm) d df) (if ig then ZNaive else ZUTC) 0 false [].
+Proof. exact parse_render_iso_hm_utc_lemma. Qed.
+Print Assumptions C02_parse_render_iso_hm_utc.
+
+Theorem C02_parse_render_compact_utc : forall jt ofm d o df cy loc n0 n1 yf ig,
+  In jt czone_tails -> In ofm [OZ; OUTC; OGMT] ->
+  valid_dt d = true -> valid_dt df = true ->
+  smem [85; 84; 67] loc = false -> smem [71; 77; 84] loc = false ->
+  parse (opts_df0 yf ig df cy loc n0 n1) (render (TDT DCompact (fst jt) (snd jt) ofm) d o)
+  = OutOk (expected_dt (TDT DCompact (fst jt) (snd jt) ofm) d df) (if ig then ZNaive else ZUTC) 0 false [].
+Proof. exact parse_render_compact_utc_lemma. Qed.
+Print Assumptions C02_parse_render_compact_utc.
 
 (* F-C02-padyear: inside the complement of the guard the round trip fails on the faithful model
    ("25 Sep 0099" and "Sat Sep 25 10:36:28 0099" are read as 1999) *)
